@@ -553,7 +553,9 @@ def _create_sbml_reactions(
                     reference = f"{compound_id}ref"
                     _create_derived_parameter(sbml_model, reference, factor)
 
-                    sref = sbml_rxn.createReactant()
+                    # The sign of a computed coefficient is only known at run time:
+                    # a product keeps the sign of the rule's value (a reactant would negate it)
+                    sref = sbml_rxn.createProduct()
                     sref.setId(_convert_id_to_sbml(id_=reference, prefix="CPD"))
                     sref.setSpecies(_convert_id_to_sbml(id_=compound_id, prefix="CPD"))
                 case _:
